@@ -22,6 +22,7 @@
 
 #include "CouponHashSet.hpp"
 
+#include <algorithm>
 #include <cstring>
 #include <exception>
 #include <stdexcept>
@@ -125,6 +126,13 @@ CouponHashSet<A>* CouponHashSet<A>::newSet(const void* bytes, size_t len, const 
     std::memcpy(sketch->coupons_.data(),
                 data + hll_constants::HASH_SET_INT_ARR_START,
                 couponsInArray * sizeof(uint32_t));
+    const auto occupied = static_cast<uint32_t>(std::count_if(sketch->coupons_.begin(), sketch->coupons_.end(),
+        [](uint32_t c) { return c != hll_constants::EMPTY; }));
+    if (occupied != couponCount) {
+      sketch->get_deleter()(sketch);
+      throw std::invalid_argument("Possible corruption: coupon count " + std::to_string(couponCount)
+          + " does not match the " + std::to_string(occupied) + " occupied slots of the table");
+    }
   }
 
   return sketch;
@@ -190,6 +198,12 @@ CouponHashSet<A>* CouponHashSet<A>::newSet(std::istream& is, const A& allocator)
     sketch->couponCount_ = couponCount;
     // for stream processing, read entire list so read pointer ends up set correctly
     read(is, sketch->coupons_.data(), sketch->coupons_.size() * sizeof(uint32_t));
+    const auto occupied = static_cast<uint32_t>(std::count_if(sketch->coupons_.begin(), sketch->coupons_.end(),
+        [](uint32_t c) { return c != hll_constants::EMPTY; }));
+    if (is.good() && occupied != couponCount) {
+      throw std::invalid_argument("Possible corruption: coupon count " + std::to_string(couponCount)
+          + " does not match the " + std::to_string(occupied) + " occupied slots of the table");
+    }
   } 
 
   if (!is.good())
